@@ -223,20 +223,48 @@ fn main() {
     bufs::install_fault_handler();
     hooks::install();
     let _ = REPLAY_DIR.set(args.replay_dir.clone());
-    let rep = match args.cmd.as_str() {
-        "seq" => seq::run(&args),
-        "sched" => schedrun::run(&args),
-        "free" => mem::run_free(&args),
-        "mem" => mem::run_mem(&args),
-        "sizes" => mem::run_sizes(&args),
-        "init" => special::run_init(&args),
-        "single" => special::run_single(&args),
-        "handoff" => special::run_handoff(&args),
-        "invalid" => special::run_invalid(&args),
-        "wrappers" => special::run_wrappers(&args),
-        "row" => unit::run_row(&args),
-        "sort" => unit::run_sort(&args),
-        "lower" => unit::run_lower(&args),
+    let rep = bufs::catch(|| run_engine(&args));
+    let rep = match rep {
+        Ok(r) => r,
+        Err(p) => {
+            // a panic that escaped every per-call catch: inside the allocator's sources it is still an
+            // observation (a query or constructor of the interface panicked), anywhere else a harness error
+            if !bufs::panic_in_sut(&p) {
+                eprintln!("harness panic: {p}");
+                std::process::exit(101);
+            }
+            let mut r = Report::new(&args.prop, &args.cmd);
+            let msg = format!("a call outside the per-call monitors (query / constructor during {}) panicked: {p}", args.cmd);
+            let v = oracle::viol(&["C09"], msg.clone());
+            if args.prop == "C09" {
+                r.violation("C09", &msg, || J::obj().with("engine", args.cmd.as_str()).with("property", "C09").with("message", msg.clone()));
+            } else {
+                r.other(&v);
+                r.notes.push("shard ended early: the allocator panicked in a query; no further observations".into());
+            }
+            r.evaluations = 1;
+            r
+        }
+    };
+    let out = rep.to_json().dump();
+    write_report(&args, &rep, out);
+}
+
+fn run_engine(args: &Args) -> Report {
+    match args.cmd.as_str() {
+        "seq" => seq::run(args),
+        "sched" => schedrun::run(args),
+        "free" => mem::run_free(args),
+        "mem" => mem::run_mem(args),
+        "sizes" => mem::run_sizes(args),
+        "init" => special::run_init(args),
+        "single" => special::run_single(args),
+        "handoff" => special::run_handoff(args),
+        "invalid" => special::run_invalid(args),
+        "wrappers" => special::run_wrappers(args),
+        "row" => unit::run_row(args),
+        "sort" => unit::run_sort(args),
+        "lower" => unit::run_lower(args),
         "replay" => {
             let text = std::fs::read_to_string(args.file.as_ref().expect("--file")).expect("read replay");
             let j = J::parse(&text).expect("parse replay");
@@ -250,8 +278,10 @@ fn main() {
             eprintln!("usage: vmon <seq|replay> --prop Cxx --seed N --shard i/n --budget-ms T --out FILE");
             std::process::exit(2);
         }
-    };
-    let out = rep.to_json().dump();
+    }
+}
+
+fn write_report(args: &Args, rep: &Report, out: String) {
     match &args.out {
         Some(p) => {
             // distinct state hashes as a binary side file (8 bytes each) for the cross-shard union
